@@ -655,7 +655,11 @@ def grid_cases(tier):
             n_parts = 2 + n % 3
             # max_stride 32: multiples <= 2 (64 px) to bound the cost of the widest models
             seqs = MULT_SEQS_SMALL if ms == 32 else MULT_SEQS
-            cases.append(make_case("unet", bcfg, mt, hs, n_parts, 1 + n % (n_parts - 1), 1 + n % 2, _sizes(ms, seqs[n % len(seqs)]), n))
+            case = make_case("unet", bcfg, mt, hs, n_parts, 1 + n % (n_parts - 1), 1 + n % 2, _sizes(ms, seqs[n % len(seqs)]), n)
+            # configurations of a listed predicate fail whatever the width: keep the two narrow widths only
+            if filters > 16 and listed_predicate(case):
+                continue
+            cases.append(case)
     for bb, stemp, fr, cpb, upi, inch in itertools.product(["convnext", "swint"], [2, 4], [1.5, 2], [1, 2, 3], [True, False], [1, 3]):
         for ms in ([16] if stemp == 2 else [16, 32]):
             for mt, hs in _head_combos([1, 2, 4, 8, 16]):
@@ -721,7 +725,7 @@ def extra_coverage():
     return {
         "exhaustive_domain": "thorough part 'grid': every configuration of unet {max_stride 8,16,32} x {stem_stride None,2,4} x "
         "{filters 8,16,24,32} x {filters_rate 1.5,2} x {convs_per_block 1,2,3} x up_interpolate x middle_block x "
-        "{in_channels 1,3} and convnext/swint tiny {stem_patch_stride 2,4} x {max_stride 16 | 16,32} x {filters_rate 1.5,2} x "
+        "{in_channels 1,3} (configurations matching a listed unet predicate: filters 8,16 only) and convnext/swint tiny {stem_patch_stride 2,4} x {max_stride 16 | 16,32} x {filters_rate 1.5,2} x "
         "{convs_per_block 1,2,3} x up_interpolate x {in_channels 1,3}, each x {single_instance, centered_instance, centroid: "
         "every head stride <= max_stride; bottomup: every ordered pair}; one call sequence / batch size / seed per "
         "configuration (rotating), not the product with all input sizes",
